@@ -551,15 +551,23 @@ func collectRaces(dir string, viols []core.Violation) (int, []core.Violation) {
 		blocks := strings.Split(string(b), "WARNING: DATA RACE")
 		for _, blk := range blocks[1:] {
 			total++
+			// signature: the top library frames of the two conflicting accesses (the first two
+			// paragraphs of the report), line numbers and addresses stripped
 			var sig []string
-			for _, l := range strings.Split(blk, "\n") {
-				l = strings.TrimSpace(l)
-				if strings.HasPrefix(l, "github.com/google/safehtml") || strings.HasPrefix(l, "text/template") {
-					if i := strings.IndexByte(l, '('); i > 0 {
-						l = l[:i]
-					}
-					sig = append(sig, l)
+			paras := strings.Split(blk, "\n\n")
+			for pi, para := range paras {
+				if pi >= 2 {
+					break
 				}
+				n := 0
+				for _, l := range strings.Split(para, "\n") {
+					l = strings.TrimSpace(l)
+					if (strings.HasPrefix(l, "github.com/google/safehtml") || strings.HasPrefix(l, "text/template")) && strings.HasSuffix(l, "()") && n < 2 {
+						sig = append(sig, strings.TrimSuffix(l, "()"))
+						n++
+					}
+				}
+				sig = append(sig, "/")
 			}
 			key := strings.Join(sig, "|")
 			if seen[key] {
